@@ -9,6 +9,7 @@
 //! the Lean model `nodereq`; channel/tracker requests are compared by the models of C01–C03/C13.
 use super::sim::*;
 use crate::common::*;
+use lightning_signer::util::test_utils::make_test_funding_wallet_addr;
 
 pub struct C10Sim;
 
@@ -23,11 +24,20 @@ pub fn node_model_line(op: &str) -> Option<String> {
 /// digest of the node-level state the `nodereq` model tracks
 pub fn node_digest(sim: &Sim) -> String {
     let node = sim.node();
-    let al: Vec<String> = node.allowlist().unwrap_or_default().into_iter().map(|s| {
-        if s.contains("hetd7") { "g".to_string() } else if s.contains("ycu764") { "g2".to_string() } else { s }
+    let own = make_test_funding_wallet_addr(&node, 5, lightning_signer::node::SpendType::P2wpkh).to_string();
+    let mut al: Vec<String> = node.allowlist().unwrap_or_default().into_iter().map(|s| {
+        if s.contains("hetd7") { "g".to_string() } else if s.contains("ycu764") { "g2".to_string() } else if s.contains(&own) { "x".to_string() } else { s }
     }).collect();
+    al.sort();
     let st = node.get_state();
-    let nchan = node.get_channels().len();
+    // a channel with a permanent id is reachable under both ids: count distinct slots
+    let nchan = {
+        let chans = node.get_channels();
+        let mut ptrs: Vec<usize> = chans.values().map(|a| std::sync::Arc::as_ptr(a) as *const () as usize).collect();
+        ptrs.sort();
+        ptrs.dedup();
+        ptrs.len()
+    };
     format!("al=[{}] inv={} hwm={} chans={}", al.join(","), st.invoices.len(), st.dbid_high_water_mark, nchan)
 }
 
@@ -70,13 +80,16 @@ impl Group for C10Sim {
     }
     fn gen_case(&self, rng: &mut Rng, tier: Tier) -> Vec<String> {
         let len = rng.range(6, if tier == Tier::Quick { 14 } else { 30 }) as usize;
-        gen_ops(rng, len)
+        let mut ops = gen_ops(rng, len);
+        if rng.chance(1, 4) { ops.insert(0, "world perm".to_string()); }
+        ops
     }
     fn exec_case(&self, ops: &[String]) -> CaseOut {
         let mut co = CaseOut::default();
-        let mut sim = Sim::new();
+        let mut sim = Sim::new_with(ops.first().map(|o| o == "world perm").unwrap_or(false));
         let (mut seen_ok_change, mut seen_err) = (false, false);
         for (i, op) in ops.iter().enumerate() {
+            if op == "world perm" { co.out.push("ok".into()); continue; }
             let before_view = view(&sim.node(), false);
             let before_store = sim.store_dump();
             let (out, pending) = exec_op(&mut sim, op);
